@@ -68,6 +68,7 @@ struct Op {
     string s; int t = 0;        // LINE: bytes, terminator 0=LF 1=CRLF 2=none
     vector<long long> chunks;   // FILE: read sizes, cycled; empty = as much as asked
     string ff_kind; int ff_errno = 0; long long ff_at = -1; int ff_transient = 0; // FILE fault
+    string name;                // FILE: the operand as the user typed it (empty: "sim:<n>"); made unique per invocation by the harness
     int fkind = 0;              // FILE: what fstat() says - 0 regular file (st_size = length), 1 FIFO/pipe (st_size = 0)
     string of_kind; long long of_at = -1; int of_errno = 0;                        // INVOKE: stdout fault
     int usage = 0;              // INVOKE: 1 = "-h", 2 = "--help" as first argument (files follow); an invocation without files is the usage path too
@@ -83,6 +84,7 @@ static sj::Value op_to_json(const Op &op) {
         sj::Value c = sj::Value::array(); for (auto x : op.chunks) c.push(sj::Value::integer(x));
         j.set("chunks", c);
         if (op.fkind) j.set("kind", op.fkind);
+        if (!op.name.empty()) j.set("name", op.name);
         if (!op.ff_kind.empty()) { sj::Value f = sj::Value::object(); f.set("kind", op.ff_kind); f.set("errno", op.ff_errno); f.set("at", op.ff_at); f.set("transient", op.ff_transient); j.set("ff", f); }
     }
     if (op.k == "INVOKE" && op.loc) j.set("loc", op.loc);
@@ -103,7 +105,7 @@ static Plan plan_from_json(const sj::Value &j) {
     if (ops) for (auto &e : ops->a) {
         Op op; op.k = e.gets("k");
         if (op.k != "INVOKE" && op.k != "FILE" && op.k != "LINE") continue;
-        op.s = e.gets("s"); op.t = (int)e.geti("t"); op.fkind = (int)e.geti("kind"); op.loc = (int)e.geti("loc"); op.usage = (int)e.geti("usage");
+        op.s = e.gets("s"); op.t = (int)e.geti("t"); op.fkind = (int)e.geti("kind"); op.loc = (int)e.geti("loc"); op.usage = (int)e.geti("usage"); op.name = e.gets("name"); if (op.name.find('\0') != string::npos) op.name = op.name.substr(0, op.name.find('\0'));
         const sj::Value *c = e.get("chunks"); if (c) for (auto &x : c->a) op.chunks.push_back(x.i < 1 ? 1 : x.i);
         const sj::Value *f = e.get("ff");
         if (f && f->kind == sj::Value::Obj) { op.ff_kind = f->gets("kind"); op.ff_errno = (int)f->geti("errno"); op.ff_at = f->geti("at", -1); op.ff_transient = (int)f->geti("transient"); }
@@ -115,7 +117,7 @@ static Plan plan_from_json(const sj::Value &j) {
 }
 
 // structured view of a plan (ops interpreted modulo structure: any subsequence is legal)
-struct SFile { int fkind = 0; string data; vector<long long> chunks; string ff_kind; int ff_errno = 0; long long ff_at = -1; int ff_transient = 0; int nlines = 0; };
+struct SFile { string name; int fkind = 0; string data; vector<long long> chunks; string ff_kind; int ff_errno = 0; long long ff_at = -1; int ff_transient = 0; int nlines = 0; };
 struct SInv { vector<SFile> files; string of_kind; long long of_at = -1; int of_errno = 0; int loc = 0; int usage = 0; };
 static vector<SInv> structure(const Plan &p) {
     vector<SInv> inv;
@@ -123,7 +125,7 @@ static vector<SInv> structure(const Plan &p) {
         if (op.k == "INVOKE") { SInv i; i.of_kind = op.of_kind; i.of_at = op.of_at; i.of_errno = op.of_errno; i.loc = op.loc; i.usage = op.usage; inv.push_back(i); }
         else if (op.k == "FILE") {
             if (inv.empty()) inv.push_back(SInv());
-            SFile f; f.fkind = op.fkind; f.chunks = op.chunks; f.ff_kind = op.ff_kind; f.ff_errno = op.ff_errno; f.ff_at = op.ff_at; f.ff_transient = op.ff_transient;
+            SFile f; f.fkind = op.fkind; f.name = op.name; f.chunks = op.chunks; f.ff_kind = op.ff_kind; f.ff_errno = op.ff_errno; f.ff_at = op.ff_at; f.ff_transient = op.ff_transient;
             if (inv.back().files.size() < 400) inv.back().files.push_back(f);
         } else {
             if (inv.empty()) inv.push_back(SInv());
@@ -148,6 +150,7 @@ struct FileState {
 struct Sim {
     const SInv *inv = nullptr;
     vector<FileState> fs;
+    vector<string> names;       // the operands of this invocation, by file index
     string out, err;            // captured stdout / stderr of the tool
     long long out_written = 0; bool of_fired = false; long out_calls = 0;
     int in_harness = 0;
@@ -194,9 +197,11 @@ static int cl_cb(void *c) {
 }
 
 extern "C" FILE *__wrap_fopen(const char *path, const char *mode) {
-    if (S && !strncmp(path, "sim:", 4)) {
+    int idx_by_name = -1;
+    if (S) for (size_t i = 0; i < S->names.size(); i++) if (S->names[i] == path) { idx_by_name = (int)i; break; }
+    if (S && idx_by_name >= 0) {
         S->in_harness++;
-        int idx = atoi(path + 4);
+        int idx = idx_by_name;
         S->fopen_calls++;
         FILE *r = nullptr;
         if (idx >= 0 && idx < (int)S->fs.size()) {
@@ -437,7 +442,13 @@ struct Exec {
         vector<string> args; args.push_back("eav");
         if (iv.usage) args.push_back(iv.usage == 1 ? "-h" : "--help");
         bool usage_path = iv.usage != 0 || iv.files.empty();
-        for (size_t i = 0; i < iv.files.size(); i++) args.push_back("sim:" + std::to_string(i));
+        // operands as the user typed them; the harness makes them distinct (the file layer finds the file by its name)
+        for (size_t i = 0; i < iv.files.size(); i++) {
+            string nm = iv.files[i].name.empty() ? "sim:" + std::to_string(i) : iv.files[i].name;
+            bool dup = false; for (auto &o : sim.names) if (o == nm) dup = true;
+            if (dup || (i == 0 && !iv.usage && (nm == "-h" || nm == "--help"))) nm += "~" + std::to_string(i);
+            sim.names.push_back(nm); args.push_back(nm);
+        }
         vector<char *> argv; for (auto &a : args) argv.push_back((char *)a.c_str()); argv.push_back(nullptr);
         cookie_io_functions_t oio = { nullptr, out_cb, nullptr, nullptr };
         sim.in_harness++;
@@ -719,6 +730,16 @@ static Plan gen_plan(const string &cfg, uint64_t seed, long long index) {
         }
         for (int fi = 0; fi < nf; fi++) {
             Op fo; fo.k = "FILE"; fo.fkind = sim_below(&w, 7) == 0 ? 1 : 0;      // one operand in seven is a FIFO / pipe (fstat says size 0)
+            {   // what the user typed: one operand in five has a name that is awkward for whoever prints, formats or parses it
+                sim_rng nr = sim_derive(rs, 1000 + (uint64_t)iv * 500 + (uint64_t)fi);
+                if (sim_below(&nr, 5) == 0) {
+                    static const char *NM[] = { "new%20subscribers.txt", "100%new.txt", "list%s.txt", "a%d%d%d%d.txt", "%n", "%", "%%", "50%.csv", "%s%s%s%s%s%s%s%s", "%1$s.txt", "%-200s", "%.999999f",
+                        "name with spaces.txt", " lead.txt", "trail.txt ", "tab\there.txt", "line\nbreak.txt", "quo\"te.txt", "back\\slash", "semi;colon|pipe&amp.txt", "$(echo x).txt", "*?.txt",
+                        "\xd0\xbf\xd0\xbe\xd1\x87\xd1\x82\xd0\xb0.txt", "\xff\xfe.txt", "-", "--", "-h", "--help", "-file.txt", "./a/../b.txt", "/", "/dev/null", ".", "..", "a//b", "~", "con", "file:///etc/passwd", "http://x/y?z=%41", "sim:0", "sim:999" };
+                    fo.name = NM[sim_below(&nr, sizeof NM / sizeof NM[0])];
+                    if (sim_below(&nr, 12) == 0) fo.name = string(200 + sim_below(&nr, 4000), 'n') + fo.name;      // longer than NAME_MAX / PATH_MAX
+                }
+            }
             int nl; unsigned lc = (unsigned)sim_below(&w, 100);
             if (lc < 8) nl = 0; else if (lc < 50) nl = 1 + (int)sim_below(&w, 5); else nl = 1 + (int)sim_below(&w, 40);
             if (many) nl = (int)sim_below(&w, 3);
